@@ -116,12 +116,18 @@ RADICALS = ['[CH2]c1ccccc1C', 'C[CH]c1ccccc1C', '[CH2]C(C)=CC', '[CH2]C(C)=C(C)C
             '[CH2]/C=C\\C', 'C[CH]C=CC', '[CH2]c1ccccc1', 'Cc1ccccc1[CH]C', '[CH2]C(C)(C)CC(C)(C)C', 'CC(C)[C](C)C', '[CH2]C=C(C)C']
 
 
+# spiro atoms (two rings through four ring bonds) and homonuclear species whose centre pattern matches from either end
+SPIRO = ['C1CC12CC2', 'CC1CC12CC2', 'C1CC12CCC2', 'C1CCC12CCC2', 'C1CC12CCCC2']
+DIATOMIC = ['[H][H]', 'O=O', '[O][O]', '[C]#[C]', 'C#[C]', '[C]=[C]', '[HH]', 'OO', 'N#N']
+
+
 def decompose_jobs(ctx, n_per_lib, graph=True, as_mol=False):
     jobs = []
     libs = list(gen.SHIPPED)
     for li, lib in enumerate(libs):
         from props import c03, c04
-        extra = (STEREO + RADICALS) if lib in ('BensonGA', 'PPY') else []
+        extra = (STEREO + RADICALS + SPIRO) if lib in ('BensonGA', 'PPY') else []
+        extra = extra + DIATOMIC
         pool = list(dict.fromkeys(c03.EXTRA.get(lib, [])[:10] + c04.STRESS.get(lib, [])[:10] + extra
                                   + molgen.pool_for_lib(ctx.rng, lib, n_per_lib, with_bad=0.12)))
         step = 8
